@@ -169,6 +169,10 @@ static inline int64_t sig_interrupt(int p, int b)
 }
 
 
+/* the signal a timer carries: an application-defined one where the op says so (tadd1u) and, so that every alphabet
+ * with timers has both kinds, for every timer armed by an odd-numbered process; the standard TIMEOUT otherwise */
+#define des_timer_signal(p, od) (((od)->b || ((p) & 1)) ? sig_timer((p), (int)(od)->a) : CMB_PROCESS_TIMEOUT)
+
 extern double des_tscale, des_t0;
 /* the duration an operation name stands for */
 #define des_dur(od) ((double)(od)->a * des_tscale)
